@@ -51,7 +51,7 @@ def cases(tier, seed):
     step = 2 if tier == 'quick' else 1
     for i, t in enumerate(texts[::step]):
         out.append({'id': 'parsed rule %r' % G.s(t), 'fam': 'parsed', 'text': G.s(t)})
-    qs = [C('t1', XV), C('t3', XV), C('t4', XV), C('t5', XV), C('t6', XV), C('t2', XV)]
+    qs = [C('t1', XV), C('t3', XV), C('t4', XV), C('t5', XV), C('t6', XV), C('t2', XV), C('t7', XV)]
     for qi in range(len(qs)):
         for k in range(0, 5):
             out.append({'id': 'mid-search %s after %d steps' % (P.ttext(qs[qi]), k), 'fam': 'mid', 'q': qi, 'k': k})
@@ -127,6 +127,25 @@ def ids_in_heap(v, acc, seen):
     return acc
 
 
+def names_in_heap(v):
+    """(id, name) of every variable stored below a heap value"""
+    from mirsym.machine import RefCellV, ArrV
+    out, stack, seen = [], [v], set()
+    while stack:
+        x = stack.pop()
+        if isinstance(x, (int, float, str, bool, Sym)) or x is None: continue
+        if id(x) in seen: continue
+        seen.add(id(x))
+        if isinstance(x, Agg):
+            if x.ty == 'Unifiable' and x.variant == 'LogicVar' and not isinstance(x.fields[0].v, Sym):
+                out.append((x.fields[0].v, x.fields[1].v.concrete()))
+            for c in x.fields: stack.append(c.v)
+        elif isinstance(x, (Ptr, RcV)): stack.append(x.cell.v)
+        elif isinstance(x, RefCellV): stack.append(x.cell.v)
+        elif isinstance(x, (VecV, ArrV)): stack.extend(c.v for c in x.items)
+    return out
+
+
 def run(drv, case):
     m = drv.m
     fam = case['fam']
@@ -172,23 +191,42 @@ def run(drv, case):
             base = [P.inst(m, c, syms) for c in PC.needed_base(c22.KB)]
             kbc = base + [P.inst(m, c, syms) for c in c22.KB]
             kb = P.build_kb(drv, kbc)
-            qs = [C('t1', XV), C('t3', XV), C('t4', XV), C('t5', XV), C('t6', XV), C('t2', XV)]
+            qs = [C('t1', XV), C('t3', XV), C('t4', XV), C('t5', XV), C('t6', XV), C('t2', XV), C('t7', XV)]
             qt = qs[case['q']]
             q = drv.query([drv.term(t) for t in qt[1]])
             node = drv.base(q, kb)
             last = None
+            # every clause instance fetched *during* the search must get ids that occur nowhere in the live solution nodes
+            clashes = []
+            def on_get_rule(mm, func, args, ret):
+                new = set()
+                ids_in_heap(ret, new, set())
+                if not new: return
+                live = ids_in_heap(node.h, set(), set())
+                both = sorted(x for x in (new & live) if x is not None)
+                if both: clashes.append(both)
+            m.post_hooks['get_rule'] = on_get_rule
             for i in range(case['k']):
                 r = drv.next(node)
                 if r.h is None: break
                 last = r
+            m.post_hooks.pop('get_rule', None)
+            if clashes:
+                raise Violation('fresh-id-in-use', '%s: a clause fetched during the search received id(s) %s that were in use in the live solution nodes' % (desc, clashes[0]))
             used = ids_in_heap(node.h, set(), set())
+            # inside the running search every id belongs to one variable: two names under one id = a fresh variable that was in use
+            names = {}
+            for vid, nm in names_in_heap(node.h):
+                if vid in names and names[vid] != nm:
+                    raise Violation('fresh-id-in-use', '%s: id %s is carried by both %s and %s in the live solution nodes' % (desc, vid, names[vid], nm))
+                names[vid] = nm
             used |= {i for i, _ in var_list(drv.dump(q), [])}
             if last is not None:
                 ss = drv.dumpss(last)
                 used |= {i for i, e in enumerate(ss) if e is not None}
                 for e in ss: used |= {i for i, _ in var_list(e, [])} if e else set()
             n = drv.getid()
-            for key, idx in (('p/1', 0), ('member/2', 1), ('t4/1', 0)):
+            for key, idx in (('p/1', 0), ('member/2', 1), ('t4/1', 0), ('pr/3', 0)):
                 rule = drv.getrule(kb, key, idx)
                 new = {i for i, _ in var_list(drv.dump(rule), [])}
                 clash = new & used
